@@ -9,6 +9,7 @@ import (
 	"encoding/json"
 	"fmt"
 	"math"
+	"math/big"
 	"os"
 	"runtime"
 	"sort"
@@ -201,17 +202,51 @@ func sortedAttrs(d Desc) []Attr {
 	return as
 }
 
+// valueCoq renders a mesh value in the model's value domain (Formats/PlyWrite.v): a float32-exact value as its
+// float32 word; any other integer of the int32 range as 2^32 + (z + 2^31); any other float64 as 2^64 + its bits
+func valueCoq(x float64) string {
+	if float64(float32(x)) == x {
+		return fmt.Sprint(f32w(x))
+	}
+	if x == math.Trunc(x) && x >= -2147483648 && x <= 2147483647 {
+		return fmt.Sprint(uint64(1)<<32 + uint64(int64(x)+2147483648))
+	}
+	v := new(big.Int).Lsh(big.NewInt(1), 64)
+	return v.Add(v, new(big.Int).SetUint64(math.Float64bits(x))).String()
+}
+
+// wideAllowed: values outside float32 are only meaningful for attributes every claiming writer stores as int
+// (integers of the int32 range) or double; everything else goes through float32 / byte storage
+func wideAllowed(d Desc, a Attr, x float64) bool {
+	claimed := false
+	for _, w := range tableOf(d) {
+		if w.Dim == a.Dim && w.Attr == a.Name {
+			claimed = true
+			switch w.Type {
+			case "double":
+			case "int":
+				if x != math.Trunc(x) || x < -2147483648 || x > 2147483647 {
+					return false
+				}
+			default:
+				return false
+			}
+		}
+	}
+	return claimed && !(a.Dim == 2 && a.Name == "TexCoord" && d.Topo == "triangle")
+}
+
 func meshCoq(d Desc) string {
 	as := sortedAttrs(d)
 	it := make([]string, len(as))
 	for i, a := range as {
 		rows := make([]string, len(a.Rows))
 		for k, r := range a.Rows {
-			ws := make([]uint32, len(r))
+			ws := make([]string, len(r))
 			for j, x := range r {
-				ws[j] = f32w(x)
+				ws[j] = valueCoq(x)
 			}
-			rows[k] = hx.CoqListN(ws)
+			rows[k] = "[" + strings.Join(ws, ";") + "]"
 		}
 		it[i] = fmt.Sprintf("{| wa_dim := %d%%nat; wa_name := %s%%string; wa_rows := [%s] |}", a.Dim, hx.CoqString(a.Name), strings.Join(rows, ";"))
 	}
@@ -330,7 +365,7 @@ func makeCase(d Desc) []hx.Case {
 	for _, a := range d.Attrs {
 		for _, r := range a.Rows {
 			for _, x := range r {
-				if float64(float32(x)) != x || math.IsNaN(x) || math.IsInf(x, 0) {
+				if math.IsNaN(x) || math.IsInf(x, 0) || (float64(float32(x)) != x && !wideAllowed(d, a, x)) {
 					c.GoFail = fmt.Sprintf("harness: value %v of %s is not float32-exact", x, a.Name)
 					c.FailKey = "harness:generator"
 				}
@@ -591,13 +626,17 @@ func genDesc(r *hx.Rng) Desc {
 	}
 	// writer configuration
 	switch k := r.Intn(100); {
-	case k < 68:
+	case k < 55:
 		d.Kind, d.Unspec = "default", true
-	case k < 76:
+	case k < 62:
 		d.Kind = "default-nounspec"
 	default:
 		d.Kind = "custom"
-		genCustom(r, &d)
+		if r.Chance(3, 5) {
+			genSystematic(r, &d)
+		} else {
+			genCustom(r, &d)
+		}
 	}
 	// every configuration must write at least one vertex property (see carriedProps)
 	if carriedProps(d) == 0 {
@@ -614,6 +653,100 @@ func genDesc(r *hx.Rng) Desc {
 		}
 	}
 	return d
+}
+
+// spellings of the recognised attributes on the reading side
+var spellings = map[string][][]string{
+	"3/Position": {{"x", "y", "z"}, {"px", "py", "pz"}, {"posx", "posy", "posz"}},
+	"3/Normal":   {{"nx", "ny", "nz"}, {"normalx", "normaly", "normalz"}},
+	"3/Color":    {{"red", "green", "blue"}, {"r", "g", "b"}, {"diffuse_red", "diffuse_green", "diffuse_blue"}},
+	"4/Color":    {{"red", "green", "blue", "alpha"}, {"r", "g", "b", "a"}},
+	"2/TexCoord": {{"s", "t"}},
+	"3/FDC":      {{"f_dc_0", "f_dc_1", "f_dc_2"}},
+	"1/Opacity":  {{"opacity"}},
+	"3/Scale":    {{"scale_0", "scale_1", "scale_2"}},
+	"4/Rotation": {{"rot_0", "rot_1", "rot_2", "rot_3"}},
+}
+
+var intLimits = []float64{16777215, 16777216, 16777217, -16777217, 33554433, 1000000007, 2147483647, -2147483648, -2147483647, 0, 1, -1, 255, 65536}
+var wideDoubles = []float64{0.1, 1.0 / 3, -2.5e-10, 123456789.125, 16777217, 2147483648.5, 1e100, -1e-100, 4.9e-324, 1.7976931348623157e308, 3.141592653589793}
+
+func genTyped(r *hx.Rng, n, dim int, ty string, narrow bool) [][]float64 {
+	rows := make([][]float64, n)
+	for i := range rows {
+		rows[i] = make([]float64, dim)
+		for j := range rows[i] {
+			switch ty {
+			case "uchar":
+				rows[i][j] = genUnit(r)
+			case "int":
+				switch {
+				case narrow:
+					rows[i][j] = float64(r.Range(-16777216, 16777216))
+				case r.Chance(1, 2):
+					rows[i][j] = hx.Pick(r, intLimits)
+				case r.Chance(1, 2):
+					rows[i][j] = float64(int32(uint32(r.U64())))
+				default:
+					rows[i][j] = float64(r.Range(-70000, 70000))
+				}
+			case "double":
+				if !narrow && r.Chance(1, 2) {
+					rows[i][j] = hx.Pick(r, wideDoubles)
+				} else if !narrow && r.Chance(1, 3) {
+					rows[i][j] = (r.Float() - 0.5) * 1e6
+				} else {
+					rows[i][j] = genCoord(r)
+				}
+			default:
+				rows[i][j] = genCoord(r)
+			}
+		}
+	}
+	return rows
+}
+
+// genSystematic: one explicit property writer per attribute (most of them), of every storage type the binary
+// writers implement (uchar, int, float, double), under a recognised spelling or fresh names, pointer or value;
+// the attribute's values are drawn for the type, limits included
+func genSystematic(r *hx.Rng, d *Desc) {
+	d.Unspec = r.Bool()
+	if r.Chance(1, 4) && !hasAttr(*d, 4, "Color") && !hasAttr(*d, 3, "Color") {
+		d.Attrs = append(d.Attrs, Attr{4, "Color", nil})
+	}
+	var tab []Writer
+	for _, k := range r.Perm(len(d.Attrs)) {
+		a := &d.Attrs[k]
+		if a.Rows != nil && r.Chance(1, 6) {
+			continue // left to the unspecified loop (or dropped)
+		}
+		ty := hx.Pick(r, []string{"float", "float", "double", "double", "int", "int", "uchar"})
+		w := Writer{Dim: a.Dim, Attr: a.Name, Type: ty, Ptr: r.Bool()}
+		sp := spellings[fmt.Sprintf("%d/%s", a.Dim, a.Name)]
+		if a.Dim == 4 && a.Name == "Color" && hasAttr(*d, 3, "Color") {
+			sp = nil
+		}
+		fresh := sp == nil || r.Chance(1, 4)
+		if ty == "uchar" && sp != nil && len(sp[0]) > 1 && !r.Chance(1, 5) {
+			fresh = false // an 8-bit property outside a recognised group is the known finding: keep it rare
+		}
+		if fresh {
+			for j := 0; j < a.Dim; j++ {
+				w.Names = append(w.Names, fmt.Sprintf("u%s%dd%d", strings.ToLower(a.Name), a.Dim, j))
+			}
+		} else {
+			w.Names = hx.Pick(r, sp)
+		}
+		narrow := a.Dim == 2 && a.Name == "TexCoord" && d.Topo == "triangle"
+		a.Rows = genTyped(r, d.N, a.Dim, ty, narrow)
+		tab = append(tab, w)
+	}
+	for k := range d.Attrs {
+		if d.Attrs[k].Rows == nil { // the 4-component colour was skipped: give it float data for the unspecified loop
+			d.Attrs[k].Rows = genRows(r, d.N, 4, false, false)
+		}
+	}
+	d.Writers = tab
 }
 
 func setRows(d *Desc, dim int, name string, rows [][]float64) {
@@ -740,6 +873,19 @@ func corner() []Desc {
 	tab[4].Type = "uchar"
 	out = append(out, Desc{Topo: "point", N: 2, Idx: []int{0, 1}, Kind: "custom", Writers: tab, Unspec: true,
 		Attrs: []Attr{{3, "Position", [][]float64{{1, 2, 3}, {4, 5, 6}}}, {1, "Opacity", [][]float64{{f32(128.0 / 255)}, {1}}}}})
+	// custom tables: texture coordinates claimed per vertex (s, t) on a textured quad; int / double storage at the
+	// limits of the types
+	out = append(out,
+		Desc{Topo: "triangle", N: 4, Idx: []int{0, 1, 2, 0, 2, 3}, Kind: "custom", Unspec: false,
+			Writers: []Writer{{3, "Position", []string{"x", "y", "z"}, "float", false}, {2, "TexCoord", []string{"s", "t"}, "float", true}},
+			Attrs:   []Attr{{3, "Position", quadPos}, {2, "TexCoord", quadUV}}},
+		Desc{Topo: "point", N: 3, Idx: []int{0, 1, 2}, Kind: "custom", Unspec: true,
+			Writers: []Writer{{3, "Position", []string{"x", "y", "z"}, "int", false}, {1, "id", []string{"id"}, "int", false},
+				{1, "time", []string{"time"}, "double", true}, {3, "Normal", []string{"nx", "ny", "nz"}, "double", false}},
+			Attrs: []Attr{{3, "Position", [][]float64{{16777217, -16777219, 5}, {20000001, 33554435, -7}, {2147483647, -2147483648, 0}}},
+				{1, "id", [][]float64{{16777217}, {1000000007}, {-33554433}}},
+				{1, "time", [][]float64{{0.1}, {1.0 / 3}, {1e100}}},
+				{3, "Normal", [][]float64{{0.1, -2.5e-10, 123456789.125}, {0, 1, 0}, {16777217, 0.5, 2147483648.5}}}}})
 	{
 		// point cloud with texture coordinates (fix ad4b3e5: written per vertex as s, t); a mesh whose only
 		// attribute is TexCoord writes no vertex property (known finding ply:ascii-vertex-without-properties)
